@@ -208,6 +208,7 @@ Obj = z3.DeclareSort('Obj')                # opaque objects (external library va
 SeqO = SeqTheory('SeqO', Obj)
 MapSO = MapTheory('MapSO', SeqI.sort, Obj)     # dict: str -> arbitrary object
 MapSS = MapTheory('MapSS', SeqI.sort, SeqI.sort)   # dict: str -> str
+MapOO = MapTheory('MapOO', Obj, Obj)               # dict / table: arbitrary (boxed) key -> arbitrary object
 
 # byte-range predicate on SeqI
 IsBytes = z3.Function('is_bytes', SeqI.sort, B)
